@@ -94,7 +94,7 @@ def parse_pairs(out, name):
 def canary(ctx, binp):
     """translator self-test: a small package with every construct the analysis claims to understand (branches with
     early unlock, loops with break/continue, defer, callee summaries, hand-off to a goroutine, timers, select/switch,
-    reassignment, wrong object, sort callbacks, globals, singleton goroutines, sync.Map ownership + close/receive signals); the table must be exactly the reviewed one"""
+    reassignment, wrong object, sort callbacks, globals, singleton goroutines, sync.Map ownership + close/receive signals, writes through aliases of cached values); the table must be exactly the reviewed one"""
     d = os.path.join(vlib.HARNESS, "cmd", "lockx", "testdata", "canary")
     out = os.path.join(ctx.tmp, "canary.json")
     rc, log = vlib.sh([binp, "-pkg", "./cmd/lockx/testdata/canary", "-json", out, vlib.HARNESS], env=vlib.goenv(), timeout=300, cwd=ctx.tmp)
@@ -105,7 +105,8 @@ def canary(ctx, binp):
         got = [[e["fn"], e["loc"], e["kind"], e["init"], [lockkey(l) for l in e["locks"]], int(e["pos"].split(":")[1]), e["classes"], e["before"], e["after"]] for e in t["entries"]]
         singles = sorted(c["name"] for c in t["classes"] if c["single"])
         diff = [x for x in got if x not in exp["entries"]] + [x for x in exp["entries"] if x not in got]
-        ok = not diff and singles == exp["singles"] and t["entry_locks"] == exp["entry_locks"] and t["signals"] == exp["signals"] and not t["type_errors"]
+        aw = [[a["fn"], a["op"], int(a["pos"].split(":")[1])] for a in t.get("alias_writes") or []]
+        ok = not diff and singles == exp["singles"] and t["entry_locks"] == exp["entry_locks"] and t["signals"] == exp["signals"] and aw == exp.get("alias_writes") and not t["type_errors"]
         detail = str(diff[:6]) + str(singles) + str(t["type_errors"][:3])
     ctx.obligation("translator self-test: lockx reproduces the reviewed table of its canary package (%d sites)" % (len(exp["entries"]) if ok else 0), ok, detail)
     if not ok:
@@ -198,6 +199,13 @@ def run_lockx(ctx, findings, spec=None):
             f["pairs"].append({"access": "%s %s at %s holding %s" % (c["fn"], "writes" if c["kind"] == "W" else "reads", c["pos"], [lockkey(l) for l in c["locks"]] or "no mutex"),
                                "conflicts_with": "%s %s at %s holding %s" % (o["fn"], "writes" if o["kind"] == "W" else "reads", o["pos"], [lockkey(l) for l in o["locks"]] or "no mutex"),
                                "classes": [c["classes"], o["classes"]]})
+    # values handed out by shared containers and then written through (no lock of the container covers the element)
+    ctx.extra["alias_writes" + spec["tag"]] = len(table.get("alias_writes") or [])
+    for a in table.get("alias_writes") or []:
+        ctx.violation({"class": "shared-alias-write", "fn": a["fn"], "op": a["op"]},
+                      "%s writes (%s) through a value it obtained from / stored in %s: every goroutine that gets the value from the container shares "
+                      "one backing store, and the container's own synchronisation does not cover its elements (%s)" % (a["fn"], a["op"], a["source"], a["pos"]),
+                      {"site": a, "how_to_replay": "python3 check.py C15 (static); dynamic: class sibling-capabilities"})
     if rc != 0 and not findings:
         ctx.proof_failures.append({"obligation": "C15_sched_race_free against the regenerated table", "detail": out2[-3000:]})
     if not server:
@@ -414,6 +422,24 @@ def gen_cases(ctx):
         w = [[x for i in range(n // 2) for x in (copy(rng.randrange(k), rng.choice(names)), show_name(rng.choice(names)), TAGS, delete(rng.choice(names)))] for _ in range(3)]
         w += [[x for i in range(n // 3) for x in (create(rng.choice(names), rng.randrange(k)), gen_name(rng.choice(names)), delete(rng.choice(names)))] for _ in range(2)]
         add("names-overlap", models=k, max_loaded=2, gpu="cpu", load_us=100, comp_us=50, workers=w)
+    # sibling models: created FROM the same weights blob with different templates (one with .Tools, one with .Suffix, one plain):
+    # whatever the server caches per blob must not leak between them.  Every request is first answered sequentially (the
+    # reference); a concurrent answer that differs from it is a torn view.
+    for i in range(1 if q else 8):
+        sib = {"t0": "{{ if .Tools }}{{ .Tools }}{{ end }}{{ .Prompt }}", "s0": "{{ .Prompt }}{{ .Suffix }}", "p0": "{{ .Prompt }}"}
+        setup = [{"method": "POST", "path": "/api/create", "body": {"model": nm, "from": "m0", "template": tp, "stream": False}} for nm, tp in sib.items()]
+        tools = [{"type": "function", "function": {"name": "f", "description": "d", "parameters": {"type": "object", "properties": {}}}}]
+
+        def chat_tools(nm):
+            return {"method": "POST", "path": "/api/chat", "body": {"model": nm, "messages": [{"role": "user", "content": "hi"}], "tools": tools, "stream": False, "keep_alive": "5s"}}
+
+        def gen_suffix(nm):
+            return {"method": "POST", "path": "/api/generate", "body": {"model": nm, "prompt": "a", "suffix": "b", "stream": False, "keep_alive": "5s"}}
+        names = list(sib)
+        reqs = [chat_tools(x) for x in names] + [gen_suffix(x) for x in names] + [show_name(x) for x in names] + \
+               [{"method": "POST", "path": "/api/embed", "body": {"model": x, "input": "hi"}} for x in names]
+        w = [[rng.choice(reqs) for _ in range(2 * n)] for _ in range(6)]
+        add("sibling-capabilities", models=1, max_loaded=3, gpu="cpu", load_us=100, comp_us=50, workers=w, setup=setup, baseline=True, timeout_ms=5000, deadline_ms=10000)
     # concurrent generate requests streamed by ONE real llmServer (parallel > 1) through the real handlers
     for i in range(1 if q else 8):
         par = rng.randint(2, 4)
@@ -647,6 +673,16 @@ def run_dynamic(ctx, table, findings, cases=None, repeat=1):
             ctx.log("case", o.get("id"), "setup:", o["setup"])
         if o.get("skipped"):
             stalls += 1
+        if c.get("baseline"):
+            ref = {r["key"]: r["digest"] for r in o.get("resps") or [] if r.get("w") == -1}
+            ctx.count("answers-compared-with-sequential", sum(1 for r in o.get("resps") or [] if r.get("w", 0) >= 0 and r.get("key") in ref))
+            for r in o.get("resps") or []:
+                if r.get("w", 0) >= 0 and r.get("key") in ref and r.get("digest") != ref[r["key"]] and "context" not in (r.get("digest") or ""):
+                    ctx.violation({"class": "answer-differs-from-sequential", "path": r["path"]},
+                                  "under concurrent load a request got an answer about its model that it does not get on its own: %s -> %r, sequentially %r" % (
+                                      r["key"][:160], r["digest"][:200], ref[r["key"]][:200]),
+                                  {"case": {k: v for k, v in c.items() if k != "workers"}, "request": r["key"], "concurrent": r["digest"], "sequential": ref[r["key"]]})
+                    break
         bad = [r for r in o.get("resps") or [] if (r.get("integrity") or "").startswith("mismatch")]
         if c.get("real_llm"):
             ctx.count("streams-checked", sum(1 for r in o.get("resps") or [] if r.get("integrity")))
